@@ -366,12 +366,14 @@ fn quad_domain(q: &MQ) -> Result<(), String> {
 
 // ---------------------------------------------------------------- system under test
 
-/// A writer that implements only `write` (which accepts at most 7 bytes per call, as the
-/// `io::Write` contract allows) and `flush`: `write_vectored` falls back to the default.
+/// A writer that implements only `write` and `flush` (`write_vectored` falls back to the default)
+/// and accepts, as the `io::Write` contract allows, only what fits in its current block of 7 bytes
+/// (a block / ring-buffer / pipe style writer): short writes happen at every offset of every token.
 struct PlainWriter(std::rc::Rc<std::cell::RefCell<Vec<u8>>>);
 impl std::io::Write for PlainWriter {
     fn write(&mut self, b: &[u8]) -> std::io::Result<usize> {
-        let n = b.len().min(7);
+        let room = 7 - self.0.borrow().len() % 7;
+        let n = b.len().min(room);
         self.0.borrow_mut().extend_from_slice(&b[..n]);
         Ok(n)
     }
@@ -405,6 +407,13 @@ fn ser_nq(quads: &[MQ]) -> Result<String, String> {
         drop(b); // a BufWriter flushes when dropped
         let (plain, buffered) = (pb.borrow().clone(), bb.borrow().clone());
         same_on_other_writers(s.as_utf8(), plain, buffered, "NqSerializer")?;
+        // ... nor on the kind of source: an iterator whose size hint is inexact (lower bound 0)
+        let mut it = NqSerializer::new_stringifier();
+        it.serialize_quads(d.iter().filter(|_| true).map(|q| Ok::<_, std::convert::Infallible>(q.clone())))
+            .map_err(|e| format!("NqSerializer error on an iterator source: {e}"))?;
+        if it.as_utf8() != s.as_utf8() {
+            return Err(format!("NqSerializer: an iterator source with an inexact size hint gives {} bytes, the dataset gives {}", it.as_utf8().len(), s.as_utf8().len()));
+        }
     }
     std::str::from_utf8(s.as_utf8())
         .map(|x| x.to_string())
@@ -424,6 +433,12 @@ fn ser_nt(quads: &[MQ]) -> Result<String, String> {
         drop(b);
         let (plain, buffered) = (pb.borrow().clone(), bb.borrow().clone());
         same_on_other_writers(s.as_utf8(), plain, buffered, "NtSerializer")?;
+        let mut it = NtSerializer::new_stringifier();
+        it.serialize_triples(g.iter().filter(|_| true).map(|t| Ok::<_, std::convert::Infallible>(t.clone())))
+            .map_err(|e| format!("NtSerializer error on an iterator source: {e}"))?;
+        if it.as_utf8() != s.as_utf8() {
+            return Err(format!("NtSerializer: an iterator source with an inexact size hint gives {} bytes, the graph gives {}", it.as_utf8().len(), s.as_utf8().len()));
+        }
     }
     std::str::from_utf8(s.as_utf8())
         .map(|x| x.to_string())
